@@ -73,7 +73,7 @@ def build_groups(ctx):
     if sorted(anchors) != sorted(vd.IN_DTYPES):
         raise tlc.MachineryError("Gen_ValueMap exported %s" % sorted(anchors))
     ctx.notes["anchor_points_exported"] = {k: len(v[1]) for k, v in sorted(anchors.items())}
-    nrand = ctx.pick(64, 5000)
+    nrand = ctx.pick(64, 10000)
     per = 64
     for i in vd.IN_DTYPES:
         outs, pts = anchors[i]
